@@ -78,11 +78,22 @@ def case(cid, rng, cfg):
          "X": Xi.tolist(), "Y": Yi.tolist(), "f1": [int(i) + 1 for i in f1], "f2": [int(i) + 1 for i in f2], "raised": False,
          "rel": [list(a) for a in alphas] if rel else [], "aeff": [], "eig": [], "sig": [0, 0], "W": [[], []], "aux": [[], []],
          "cv": [], "best_idx": 1, "best_score": 0, "coef": [], "Xn": [], "predn": []}
+    # single-precision features now and then (lattice values are exact in float32): the numerical rank must then be judged at
+    # single-precision resolution, otherwise round-off directions of rank-deficient folds enter the solution
+    Xfit = X.astype(np.float32) if rng.random() < 0.25 else X
+    if Xfit.dtype == np.float32 and kind in ("rankdef", "dupcol"):
+        # the dependent column differs by one unit in the last place here and there: the same data at single-precision
+        # resolution (and far below the resolution of the specification), but no longer EXACTLY dependent
+        col = Xfit[:, -1].copy()
+        flip = rng.random(n) < 0.6
+        col[flip] = np.nextafter(col[flip], np.float32(np.inf) * np.where(rng.random(int(flip.sum())) < 0.5, 1, -1).astype(np.float32))
+        Xfit[:, -1] = col
+    c["kind"] = kind + ("/float32" if Xfit.dtype == np.float32 else "")
     try:
         with warnings.catch_warnings():
             warnings.simplefilter("ignore")
             mdl = Ridge2FoldCV(alphas=[a / b for a, b in alphas], alpha_type=cfg["atype"], regularization_method=cfg["method"], cv=cvarg,
-                               scoring=scoring, n_jobs=None if cfg["njobs"] == 1 else 2, **kw).fit(X, Y if p > 1 else Y)
+                               scoring=scoring, n_jobs=None if cfg["njobs"] == 1 else 2, **kw).fit(Xfit, Y if p > 1 else Y)
         c["cv"] = fq(mdl.cv_values_)
         c["best_idx"] = int(np.argmin(np.abs(np.asarray([a / b for a, b in alphas]) - mdl.alpha_))) + 1
         c["best_score"] = fq([mdl.best_score_])[0]
